@@ -83,7 +83,8 @@ def _uniform_case(case):
             p1 = np.array([ox + 0.8 * rho, oy + 0.6 * rho, z1])
             try:
                 if mode == "fresh":
-                    tr = UniformRayTracer(p0, p1, ice)
+                    a_, b_ = p0.copy(), p1.copy()
+                    tr = UniformRayTracer(a_, b_, ice)
                     tr.max_reflections = maxr
                 else:
                     if shared is None:
@@ -93,6 +94,10 @@ def _uniform_case(case):
                     tr.to_point = p1
                     tr.max_reflections = maxr
                 sols = list(tr.solutions)
+                if mode == "fresh":
+                    # the end points were the caller's arrays; the caller re-uses them (in place) before reading the paths
+                    a_ += 333.0
+                    b_[:] = (1.0, 2.0, lo + 0.25 * span)
             except Exception as e:
                 if src.exception_origin(e) != "library":
                     raise
